@@ -77,3 +77,72 @@ def gen(tier, rng):
                     yield f"c04.b.sbb {na} {hx(a)} {nb} {hx(b)} {hx(c)}"
                 for op in ("forms", "op_add", "op_sub", "add_assign", "sub_assign", "wrapping_assign"):
                     yield f"c04.b.{op} {na} {hx(a)} {nb} {hx(b)}"
+
+
+    # ---- coverage round (emitted last, from its own PRNG stream: the families above stay the same lines)
+    yield from coverage_lines(tier, random.Random(rng.getrandbits(32)))
+
+
+def coverage_lines(tier, rng):
+    """`Wrapping<Limb>` / `Checked<Limb>` assigning forms and the `WrappingNeg` trait form; the trait forms of
+    `Checked<T>` (conditional_select, ct_eq, Default, From conversions) with every combination of `is_some` masks and
+    choice; the trait forms of `Wrapping<T>` (conditional_select, ct_eq, zero/is_zero, one/is_one, fmt forwarding).
+    Directed: MAX + 1, 0 - 1, equal operands, 0 / 1 / values whose only set bits are above limb 0 (is_zero / is_one
+    must look at every limb), zero-padded equal boxed values of different precisions."""
+    quick = tier == 'quick'
+    widths = FIXED_QUICK if quick else FIXED_THOROUGH
+    reps = 60 if quick else 600
+    lpairs = [(a, b) for a in EDGE_WORDS for b in EDGE_WORDS] + [(limb_choice(rng), limb_choice(rng)) for _ in range(reps * 3)]
+    for a, b in lpairs:
+        yield f"c04.l.assign {hx(a)} {hx(b)}"
+    for i, (a, b) in enumerate(lpairs[:121 + reps]):
+        for sa in (0, 1):
+            for sb in (0, 1):
+                if i < 121 or (sa, sb) == (i % 2, (i // 2) % 2):
+                    yield f"c04.l.checked_assign {hx(a)} {sa} {hx(b)} {sb}"
+    ldir = [(0, 0), (1, 1), (0, 1), (1, 0), (WMAX, WMAX), (WMAX, 0), (5, 5), (5, 7), (1 << 63, 1 << 63), (1 << 63, 0)]
+    for a, b in ldir + [(limb_choice(rng), limb_choice(rng)) for _ in range(reps)] + [(v, v) for v in (limb_choice(rng) for _ in range(reps // 3))]:
+        full = (a, b) in ldir
+        for sa in (0, 1):
+            for sb in (0, 1):
+                for c in (0, 1):
+                    if full or rng.randrange(4) == 0:
+                        yield f"c04.l.checked_ct {hx(a)} {sa} {hx(b)} {sb} {c}"
+        for c in (0, 1):
+            yield f"c04.l.wrapping_ct {hx(a)} {hx(b)} {c}"
+    for v in EDGE_WORDS + [limb_choice(rng) for _ in range(reps // 3)] + [0xabcdef0123456789, 0x0fedcba987654321]:
+        yield f"c04.l.wrapping_fmt {hx(v)}"
+        yield f"c04.w.wrapping_octal {hx(v)}"
+    for n in widths:
+        m = 1 << (64 * n)
+        hi = 1 << (64 * (n - 1))                  # only the top limb set (n > 1): invisible to a test of limb 0
+        udir = [(0, 0), (1, 1), (0, 1), (1, 0), (m - 1, m - 1), (m - 1, 0), (hi, hi), (hi, 0), (hi % m + 1, 1), (1, (hi + 1) % m),
+                (m // 2, m // 2), (m - 1, m - 2)]
+        rnd = [pair(rng, n) for _ in range(reps // 2)] + [(v, v) for v in (value(rng, n) for _ in range(reps // 6))]
+        for a, b in udir + rnd:
+            full = (a, b) in udir
+            for sa in (0, 1):
+                for sb in (0, 1):
+                    for c in (0, 1):
+                        if full or rng.randrange(4) == 0:
+                            yield f"c04.u.checked_ct {n} {hx(a)} {sa} {hx(b)} {sb} {c}"
+            for c in (0, 1):
+                yield f"c04.u.wrapping_ct {n} {hx(a)} {hx(b)} {c}"
+        alt = sum(0xa5a5a5a5a5a5a5a5 << (128 * i) for i in range((n + 1) // 2)) % m
+        for v in [0, 1, m - 1, hi, alt, 0xabcdef0123456789 % m] + [value(rng, n) for _ in range(4 if quick else 40)]:
+            yield f"c04.u.wrapping_fmt {n} {hx(v)}"
+    blens = [1, 2, 3, 4, 5, 8, 16, 17] if quick else list(range(1, 41))
+    for na in blens:
+        for nb in sorted({na, 1, max(1, na - 1), na + 1}):
+            k = min(na, nb)
+            mk = 1 << (64 * k)
+            vs = [(0, 0), (1, 1), (0, 1), (1, 0), (mk - 1, mk - 1), (1 << (64 * (k - 1)), 1 << (64 * (k - 1))), (1 << (64 * (na - 1)), 1),
+                  ((1 << (64 * (na - 1))) + 1 if na > 1 else 1, 1)]
+            vs += [pair(rng, k) for _ in range(3 if quick else 10)] + [(value(rng, na), value(rng, nb))]
+            v = value(rng, k)
+            vs.append((v, v))
+            for a, b in vs:
+                yield f"c04.b.wrapping_ct {na} {hx(a % (1 << (64 * na)))} {nb} {hx(b % (1 << (64 * nb)))}"
+        ma = 1 << (64 * na)
+        for v in [0, 1, ma - 1, value(rng, na)]:
+            yield f"c04.b.wrapping_fmt {na} {hx(v)}"
